@@ -19,6 +19,7 @@ let () =
     "uids", Xconc.cmd_uids;
     "transport", Xconc.cmd_transport;
     "apiorder", Xconc.cmd_apiorder;
+    "unixapi", Xconc.cmd_unixapi;
   ]
 
 let () =
